@@ -184,6 +184,7 @@ CHECKS = {
             dict(name="initrace", run="^TestInitRace$", checks=(150, 2000), shards=(2, 8), shrinktime="5s"),
             dict(name="rebuildrace", run="^TestRebuildRace$", checks=(120, 1500), shards=(2, 8), shrinktime="5s"),
             dict(name="bulk", run="^TestBulkRebuild$", checks=(8, 80), shards=(2, 8), shrinktime="5s"),
+            dict(name="rebuildwriters", run="^TestRebuildWriters$", checks=(30, 400), shards=(2, 8), shrinktime="5s"),
             dict(name="regress", run="^TestRegress", shards=(1, 1)),
         ],
     ),
